@@ -41,7 +41,7 @@ def run(F, rep, tier):
             if c.unsafe and not (c.exp and any('format_args' in m or 'FormatLiteral' in m for m in c.macs)):
                 rep.violation("%s|unsafe-call:%s" % (f.path, c.name), "K3 unsafe inventory",
                               "call to unsafe fn %s in cstr.rs" % c.path, c.site())
-            if c.is_("ops::Index::index", "ops::IndexMut::index_mut") or (c.name or "").startswith("get_unchecked") \
+            if c.is_("Index::index", "IndexMut::index_mut") or (c.name or "").startswith("get_unchecked") \
                     or (c.path or "").startswith("core::ptr::write") or c.is_("ptr::copy_nonoverlapping", "ptr::copy", "slice::from_raw_parts_mut", "intrinsics::copy_nonoverlapping"):
                 rep.violation("%s|unchecked-access:%s" % (f.path, c.name), "K3 who-may-write",
                               "unchecked or indexing access %s in cstr.rs" % c.path, c.site())
